@@ -1238,7 +1238,9 @@ func (c *DefaultCtx) Scheme() string {
 			scheme = c.app.getString(val)
 		}
 	})
-	return scheme
+	// scheme names are case-insensitive (RFC 3986 3.1): "HTTPS" announced by a proxy is https for Secure() and
+	// for everybody who compares the result with "https"
+	return utils.IfToLower(scheme)
 }
 
 // Protocol returns the HTTP protocol of request: HTTP/1.1 and HTTP/2.
